@@ -199,6 +199,84 @@ func (fo *folder) foldRound() bool {
 				changed = true
 			}
 		}
+		// calls in expression position of helpers that are a single `return <expr>`: replaced by the expression
+		astutil.Apply(file, func(c *astutil.Cursor) bool {
+			call, ok := c.Node().(*ast.CallExpr)
+			if !ok || call.Ellipsis.IsValid() {
+				return true
+			}
+			f, hd := fo.freshCallee(call)
+			if hd == nil || fo.recursive(f, hd) || len(hd.Body.List) != 1 {
+				return true
+			}
+			ret, ok := hd.Body.List[0].(*ast.ReturnStmt)
+			if !ok || len(ret.Results) != 1 {
+				return true
+			}
+			if efd := enclosingDecl(file, call.Pos(), c); efd == hd || efd == nil {
+				return true
+			}
+			cl := fo.newCloner(call)
+			bindOK := true
+			bind := func(param *ast.Ident, arg ast.Expr) {
+				po := fo.info.Defs[param]
+				if po == nil || param.Name == "_" {
+					return
+				}
+				uses := 0
+				ast.Inspect(ret, func(x ast.Node) bool {
+					if id, ok := x.(*ast.Ident); ok && fo.info.Uses[id] == po {
+						uses++
+					}
+					return true
+				})
+				if !pureExpr(arg) && uses > 1 {
+					bindOK = false
+				}
+				cl.subst[po] = arg
+			}
+			if hd.Recv != nil && len(hd.Recv.List) == 1 && len(hd.Recv.List[0].Names) == 1 {
+				sel, ok := unparen(call.Fun).(*ast.SelectorExpr)
+				if !ok {
+					return true
+				}
+				bind(hd.Recv.List[0].Names[0], sel.X)
+			}
+			k := 0
+			if hd.Type.Params != nil {
+				for _, fl := range hd.Type.Params.List {
+					if _, variadic := fl.Type.(*ast.Ellipsis); variadic {
+						return true
+					}
+					for _, nm := range fl.Names {
+						if k >= len(call.Args) {
+							return true
+						}
+						bind(nm, call.Args[k])
+						k++
+					}
+					if len(fl.Names) == 0 {
+						k++
+					}
+				}
+			}
+			if !bindOK || k != len(call.Args) {
+				return true
+			}
+			e := cl.node(ret.Results[0]).(ast.Expr)
+			pe := &ast.ParenExpr{X: e, Lparen: e.Pos(), Rparen: e.End()}
+			if tv, ok := fo.info.Types[call]; ok {
+				fo.info.Types[pe] = tv
+			}
+			fo.prefix[pe] = cl.prefix
+			c.Replace(pe)
+			fo.folded[f]++
+			if efd := enclosingDecl(file, call.Pos(), c); efd != nil {
+				fo.touch(efd)
+			}
+			changed = true
+			return false
+		}, nil)
 		// value uses: h passed or stored as a function value
 		astutil.Apply(file, func(c *astutil.Cursor) bool {
 			var id *ast.Ident
